@@ -345,6 +345,17 @@ where
             }
         }
         log.push_str(&format!("{step} {op:?} -> {:?}\n", model.top()));
+        *stats
+            .entry(match (model.stack.len() - 1).min(6) {
+                0 => "state.map_depth_0",
+                1 => "state.map_depth_1",
+                2 => "state.map_depth_2",
+                3 => "state.map_depth_3",
+                4 => "state.map_depth_4",
+                5 => "state.map_depth_5",
+                _ => "state.map_depth_6",
+            })
+            .or_insert(0) += 1;
         if let Some(v) = check_map(&map, &model, nkeys, step, &format!("{op:?}")) {
             return SegResult {
                 violation: Some(v),
